@@ -123,7 +123,12 @@ func c01Unit(c *engine.C, idx int, forceMain bool) (cls *jg.Class, relPath strin
 	for i := 0; i < nimp; i++ {
 		cls.Imports = append(cls.Imports, []string{"java.util.List", "java.util.Map"}[i])
 	}
-	switch c.Choose(4, pfx+"class-ann") {
+	switch c.Choose(6, pfx+"class-ann") {
+	case 4:
+		// values with a percent sign: inside the text, and as its last character
+		cls.Anns = []jg.Ann{{Name: "Component", Single: "\"/by-name/%s\""}}
+	case 5:
+		cls.Anns = []jg.Ann{{Name: "Table", Pairs: [][2]string{{"name", "\"done 100%\""}, {"schema", "\"%d items\""}}}}
 	case 1:
 		cls.Anns = []jg.Ann{{Name: "Service"}}
 	case 2:
